@@ -385,6 +385,57 @@ SEEDS = {
         needs="two jumps inside one time step",
         detected_by={"C18": "step_search_inner: new threshold in (0,1), gap = 1 - threshold; Inv holds again (after the jump)"},
     ),
+    "C01c": dict(
+        property="C01",
+        change="RydbergHamiltonian takes the phased path only when ALL phases are non-zero (`phis.all()` instead of `.any()`): a step with mixed zero / non-zero phases drops every phase",
+        needs="a step whose per-atom phase vector mixes 0 and non-zero values (SLM mask during a phased global pulse)",
+        detected_by={"C01": "sv_n2_steps2_slm: step k: exponentiated operator = -i*dt*1e-3*H_Pulser(step k)", "C06": "ham_mul_n2_phase: H*v = H_dense v"},
+    ),
+    "C04c": dict(
+        property="C04",
+        change="create_impl no longer refuses DMRG when the SequenceData carries Lindblad operators (the repaired defect D6 returning)",
+        needs="solver=DMRG with jump operators that do not come from config.noise_model (device noise model)",
+        detected_by={"C04": "mps_solver_selection_n2: DMRG with any noise is refused"},
+    ),
+    "C07c": dict(
+        property="C07",
+        change="the second truncation-error estimate uses the residual norm n2 instead of |A v_j| (err2 becomes quadratic in the residual): early `converged=True` near almost-invariant subspaces",
+        needs="a start vector in a weakly coupled subspace, moderate dt*|H|, tolerance between eps^2 and eps",
+        detected_by={"C07": "honesty_dim2_k1_lanczos: converged is reported exactly when an iteration met the breakdown or error criterion"},
+        strengthened="first detection was an exception in the harness (the oracle expected a returned vector and compared None): the returned-vector clause is now skipped when no vector came back, so the convergence clause is what fails",
+    ),
+    "C20c": dict(
+        property="C20",
+        change="the right-end three-point slope receives the last two interval widths in swapped order",
+        needs="a non-uniform grid whose last two intervals differ, query in the last interval or beyond",
+        detected_by={"C20": "reference_n3_nonuniform: p2/p3 = reference"},
+    ),
+    "C08c": dict(
+        property="C08",
+        change="the Lanczos cycle length is capped at numel-1 (off by one): for a 1-dimensional operator no Ritz pair is ever computed (energy inf), for dimension 2 every cycle has one iteration",
+        needs="an operator of dimension 1 (or 2 with a non-eigenvector start)",
+        detected_by={"C08": "bookkeeping_k2_restarts0: non-convergence is only reported after every allowed restart and iteration was used"},
+    ),
+    "C09c": dict(
+        property="C09",
+        change="DMRG convergence_check tests the energies for truthiness instead of `is None`: a sweep energy of exactly 0.0 never counts as converged",
+        needs="a time step with zero amplitude while the state is |g..g> (sweep energy exactly 0.0): RuntimeError after max_sweeps",
+        detected_by={"C09": "sweeps_n3_upto3_max2: the time step completes right after the first full sweep whose final energy moved by less than the tolerance"},
+    ),
+    "C16c": dict(
+        property="C16",
+        change="SVBackendImpl.__init__ wraps the user's initial state without cloning it: krylov_exp normalises that very tensor in place, so a second emulation with the same config starts from rho0/|rho0|_F",
+        needs="Lindblad noise, a mixed initial DensityMatrix (Frobenius norm < 1) and a second emulation with the same SVConfig",
+        detected_by={"C16": "dm_n1_steps1_ops2_init: the configured initial density matrix is not modified by the run (added)", "C01": "sv_n2_steps1_init: the user's initial state is not modified"},
+        strengthened="MISSED at first by both: C01 had the clause, but the krylov_exp stub left its input alone. The stub now honours krylov_exp's documented contract (its input tensor becomes invalid: it is zeroed), which exposes any code that still needs that tensor; the clause was added to C16. (Two aliasing mistakes this uncovered in the harnesses themselves - recorded results and callback states held by reference - were fixed.)",
+    ),
+    "C17c": dict(
+        property="C17",
+        change="fill_results builds the state handed to observables from the raw (un-normalised) trajectory state when bad atoms are present (same mechanism as C25b, produced for C17)",
+        needs="Lindblad noise (decaying norm) and at least one badly prepared atom",
+        detected_by={"C17": "reported_state_is_normalised_N3_d2_chi2 (added): state handed to callbacks = (psi/norm) with dark atoms in |g>", "C13": "mps_fill_results_N3_d2_chi2", "C25": "mps_fill_results_N3_d2_chi2"},
+        strengthened="C17 MISSED it at first (C13 and C25 caught it): the fill_results case is now part of C17 as well",
+    ),
     "C19c": dict(
         property="C19",
         change="get_next_abscissa drops the `|dx| >= 3/4 |a-b|` half of the bisection fallback: an interpolated step is no longer bounded by the current bracket",
